@@ -1527,7 +1527,7 @@ struct array : static_array<T, D, Alloc> {
 		} catch(...) { release_tmp(); throw; }  // the construction rolled itself back: only the block is outstanding
 		try {
 			auto const is = intersection(this->extensions(), extensions);
-			if(is.num_elements() != 0) { tmp.apply(is) = this->apply(is); }  // TODO(correaa) : use (and implement) `.move();`
+			if(is.num_elements() != 0) { tmp.apply(is).elements() = this->apply(is).elements(); }  // slices of differently based arrays have different extensions: copy element-wise  // TODO(correaa) : use (and implement) `.move();`
 		} catch(...) {
 			if constexpr(!(std::is_trivially_destructible_v<typename array::element_type> || multi::force_element_trivial_destruction<typename array::element_type>)) {
 				this->static_::array_alloc::destroy_n(tmp.data_elements(), tmp.num_elements());
@@ -1571,7 +1571,7 @@ struct array : static_array<T, D, Alloc> {
 		} catch(...) { release_tmp(); throw; }  // the fill rolled itself back: only the block is outstanding
 		try {
 			auto const is = intersection(this->extensions(), exs);
-			if(is.num_elements() != 0) { tmp.apply(is) = this->apply(is); }
+			if(is.num_elements() != 0) { tmp.apply(is).elements() = this->apply(is).elements(); }  // slices of differently based arrays have different extensions: copy element-wise
 		} catch(...) {
 			if constexpr(!(std::is_trivially_destructible_v<typename array::element_type> || multi::force_element_trivial_destruction<typename array::element_type>)) {
 				this->static_::array_alloc::destroy_n(tmp.data_elements(), tmp.num_elements());
